@@ -14,7 +14,8 @@ from props.C04 import collect
 ID = "C09"
 TRUSTED = ["the in-process reference stream (real PcfgQueue + create_guesses with a collector) is what the CLI prints when nothing else is written",
            "argparse; the OS pipe",
-           "second tie (translator): harness/translate_expand.py (ast -> Gallina, fail closed; accepted subset and what it does not model in its docstring) and the meaning coq/theories/ExpandRt.v gives to Python subscripts, slices, `if limit:` and str methods; print_guess, MarkovCracker, int() and str.upper() of one character are parameters of the generated functions"]
+           "second tie (translator): harness/translate_expand.py (ast -> Gallina, fail closed; accepted subset and what it does not model in its docstring) and the meaning coq/theories/ExpandRt.v gives to Python subscripts, slices, `if limit:` and str methods; print_guess, MarkovCracker, int() and str.upper() of one character are parameters of the generated functions",
+           "translator tie of the session loop: harness/translate_session.py (ast -> Gallina, fail closed; accepted subset and what it does not model in its docstring) and the meaning coq/theories/SessionRt.v gives to `while`, break, try/except OSError, `if limit:` and `x is None`; every collaborator of CrackingSession.run / _save_session (queue, grammar object with quit flag and OMEN counters, save configuration and file, keyboard thread) is an operation on an abstract world: the translated text equals SessionModel.m_run for every world (C12_source_run_is_model), and the property theorems instantiate the world with the collaborators of Session.v (SessionModel.sworld) or constrain it by a contract (quiet_world)"]
 ASSUMES = ["N >= 1 (the CLI rejects N < 0; N = 0 means no limit)", "--limit together with --load of an interrupted Markov level is not claimed "
            "(restore_omen does not take the limit); it is outside the runs below"]
 
@@ -290,6 +291,9 @@ def run(ctx):
     # second tie to the source (translator): name the broken equality if the build lost ExpandGenProofs
     import expand_tie
     corr.append(expand_tie.obligation())
+    # translator tie of the session loop itself (CrackingSession.run = SessionModel.m_run = Session.limited)
+    import session_tie
+    corr.append(session_tie.obligation("session"))
     return {"evaluations": dist["cli_runs"], "distinct_nontrivial": nontrivial, "rule": rule, "samples": samples,
             "corr": corr, "violations": vio, "dist": dist, "corr_explained_by_known": False}
 
